@@ -15,6 +15,11 @@ CLAIMED = {
    text='Exhaustive decision-table check without execution: detect_schema is evaluated structurally for every (major, minor, patch) in a box built from all case labels and their neighbours (the code compares version members only by equality - checked - so the box is exhaustive), each cell compared with the supported set read from engine_schema.hpp; the 1.18.0 variant marker is evaluated against the DDL of both 1.18.0 creators; detect_is_database2 over all 8 presence combinations; load/create/exists dispatch for every enumerator and layout, out-parameter assignment and handler types.',
    note='Trusted: clang AST, the finite evaluator (sa/feval.py), SQLite returning the stored Information row. Known finding: triple 3.0.0 is accepted (pinned reference test requires it).',
    ref='DESIGN.md 4 C13'),
+ 'C17': dict(
+   technique='typestate check of the expectation blocks + static comparison of their literal lists with the SQLite catalog derived from the creators\' DDL and from the reference dumps; dataflow check of the validate helpers',
+   text='Exhaustive static check of the validator: all expectation blocks reachable from each class\'s verify() (1275 block instances, helper parameters bound to call-site literals, virtual calls resolved per dynamic class) are read from the clang AST; V1 checks their iterator typestate (validate / ++iter alternation, own iterators, validate_no_more terminator); V2 requires the literal expectations to equal, entry by entry and in std::set order, what a catalog model of SQLite derives from the same class\'s DDL, and every table / index / index column to be covered by a block; V3 requires the same against each of the 57 reference dumps; V4 checks by dataflow that each validate helper compares every listed attribute with the entry member of the same meaning and throws database_inconsistency. Together these imply the reject side for every single structural deviation the property lists, which no existing test exercises.',
+   note='Trusted: clang AST; the catalog model of PRAGMA table_info/index_list/index_info/sqlite_master (cross-validated: it reproduces all hand-written expectation blocks, which pass on real SQLite in the pinned suite). Views\' columns are only checked where the validator has a block (2.x validators have none; outside the property\'s list). Trigger and view bodies are outside the property.',
+   ref='DESIGN.md 4 C17'),
 }
 
 NOT_APPLICABLE = {
